@@ -365,3 +365,39 @@ func runBolt(c *hx.Ctx) {
 		emit(c, name, proto, input, pickID(r), ops)
 	}
 }
+
+// runBoltLocal: frames MOSN builds itself (heartbeat trigger / reply, hijack reply, goaway) have no raw frame and always
+// take the slow path of Encode. case: `boltlocal <codec> <what> <id> <status>`.
+func runBoltLocal(c *hx.Ctx) {
+	r := c.Rng.Fork()
+	pb := (&bolt.XCodec{}).NewXProtocol(context.Background())
+	pv2 := (&boltv2.XCodec{}).NewXProtocol(context.Background())
+	for i := 0; i < c.N(120, 2000); i++ {
+		name, proto := "bolt", pb
+		if r.Bool() {
+			name, proto = "boltv2", pv2
+		}
+		what := r.PickS([]string{"trigger", "reply", "hijack"})
+		id := pickID(r)
+		status := uint32(r.Pick([]int{0, 1, 2, 6, 7, 16, 18, 200, 404, 502, 65535, 65536, 70000}))
+		ctx := newStreamCtx()
+		var frame api.XFrame
+		switch what {
+		case "trigger":
+			frame = proto.(api.Heartbeater).Trigger(ctx, id)
+		case "reply":
+			req := proto.(api.Heartbeater).Trigger(ctx, id)
+			frame = proto.(api.Heartbeater).Reply(ctx, req)
+		case "hijack":
+			req := proto.(api.Heartbeater).Trigger(ctx, 1)
+			frame = proto.(api.Hijacker).Hijack(ctx, req, status)
+			frame.SetRequestId(id) // the stream layer overwrites it
+		}
+		out := "err -"
+		if buf, err := proto.Encode(ctx, frame); err == nil && buf != nil {
+			out = "ok " + hx.Hex(buf.Bytes())
+		}
+		c.Emit("C01", fmt.Sprintf("boltlocal %s %s %d %d", name, what, id, status), out)
+		c.Count("boltlocal." + name + "." + what)
+	}
+}
